@@ -2113,9 +2113,14 @@ class TensorDict(TensorDictBase):
             # we only want to squeeze dimensions lower than the batch dim, and view
             # is the perfect op for this
             def _squeeze(tensor):
-                if _is_tensor_collection(type(tensor)):
+                if (
+                    _is_tensor_collection(type(tensor))
+                    and tensor.batch_dims >= self.batch_dims
+                ):
                     # view() erases the dim names: a nested tensordict is squeezed one
                     # dim at a time so that the names of the dims that stay are kept
+                    # (an entry without these batch dims, e.g. an UnbatchedTensor, is
+                    # viewed as before)
                     for squeezed_dim in reversed(squeezed_dims):
                         tensor = tensor.squeeze(squeezed_dim)
                     return tensor
